@@ -114,8 +114,8 @@ func ruleGLOBALS(c *Ctx) {
 
 // nondetAudited: sources of run-to-run variation on the generation path and where the value goes.
 var nondetAudited = map[string]string{
-	"gen.GenerateFile:time.Now":   "timing goes to gen.Stats (printed by the CLI), never to a Writer",
-	"gen.GenerateFile:time.Since": "timing goes to gen.Stats (printed by the CLI), never to a Writer",
+	"gen.GenerateFile:time.Now":        "timing goes to gen.Stats (printed by the CLI), never to a Writer",
+	"gen.GenerateFile:time.Since":      "timing goes to gen.Stats (printed by the CLI), never to a Writer",
 	"parsers/tm.Parser.parse:select":   "non-blocking cancellation poll of the grammar parser: its only effect is returning ctx.Err() instead of a result",
 	"lalr.compiler.buildLA:time.Now":   "timing goes to DebugInfo only under CollectStats, which GenerateFile never sets",
 	"lalr.compiler.buildLA:time.Since": "timing goes to DebugInfo only under CollectStats, which GenerateFile never sets",
